@@ -913,7 +913,8 @@ def nested_judge(ctx, probes, got, rejected, targ, stats, pretext=""):
 
 
 def nested(ctx, objdir):
-    num, depth = (150, 16) if ctx.quick else (3500, 16)
+    # TLC runs `num` behaviours per worker: 4 x 150 x 16 steps (quick), 8 x 500 x 16 steps (thorough)
+    num, depth = (150, 16) if ctx.quick else (500, 16)
     r = ctx.tlc_must_pass("CTypesExprGen", "MC_CTypes_nested.cfg", workers=4 if ctx.quick else 8, simulate=num, depth=depth, timeout=2400, heap="3g")
     cases = [json.loads(v) for v in r.vcases]
     table = [c for c in cases if c["form"] == "nested_table"]
